@@ -8,6 +8,9 @@ CONSTANTS
   MaxAnswers = 2
   MaxCalls = 2
   CarryLayers = {"http", "json", "signed"}
+  X509Chains = {"x509"}
+  KeyOptions = {"der"}
+  ReplaySources = {}
 INIT Init
 NEXT Next
 VIEW ExportViewCoarse
